@@ -26,18 +26,18 @@ def call_name(value):
 
 
 def pass_call(stmt):
-    """items = f(items, ...)  /  program = resolve_blobs(items)"""
+    """<items> = f(<items>, ...)  /  <program> = resolve_blobs(<items>) : (function, extra args, target, first argument)"""
     if not (isinstance(stmt, ast.Assign) and len(stmt.targets) == 1 and isinstance(stmt.targets[0], ast.Name)):
         return None
     nm = call_name(stmt.value)
     if nm is None:
         return None
     args = stmt.value.args
-    if not (args and isinstance(args[0], ast.Name) and args[0].id == 'items'):
+    if not (args and isinstance(args[0], ast.Name)):
         return None
     if stmt.value.keywords:
         return None
-    return nm, [a.id if isinstance(a, ast.Name) else None for a in args[1:]], stmt.targets[0].id
+    return nm, [a.id if isinstance(a, ast.Name) else None for a in args[1:]], stmt.targets[0].id, args[0].id
 
 
 def exc_names(t):
@@ -63,30 +63,38 @@ def emit_passes(repo):
     start = None
     for i, st in enumerate(body):
         pc = pass_call(st)
-        if pc and pc[0] == 'resolve_constants':
+        if pc and pc[0] == 'resolve_constants' and pc[2] == pc[3]:
             start = i
             break
     if start is None:
         fail(fns['assemble'], 'pass section not found')
     order = []
+    # the variable the item list is threaded through (any name, used consistently) and the result variable
+    ivar = pass_call(body[start])[3]
+    params = {a.arg for a in fns['assemble'].args.args + fns['assemble'].args.kwonlyargs}
+    if 'compress' not in params:
+        fail(fns['assemble'], 'assemble() has no `compress` parameter')
+    pvar = None
     for st in body[start:]:
         if isinstance(st, ast.Return):
-            if not (isinstance(st.value, ast.Name) and st.value.id == 'program'):
-                fail(st, 'assemble must return program')
+            if not (isinstance(st.value, ast.Name) and st.value.id == pvar):
+                fail(st, 'assemble must return the result of resolve_blobs')
             break
         if isinstance(st, ast.If):
             if not (isinstance(st.test, ast.Name) and st.test.id == 'compress' and not st.orelse and len(st.body) == 1):
                 fail(st, 'only `if compress:` with one pass call is understood')
             pc = pass_call(st.body[0])
-            if pc is None or pc[2] != 'items':
+            if pc is None or pc[2] != ivar or pc[3] != ivar:
                 fail(st, 'guarded pass call')
             order.append((pc[0], pc[1], True))
             continue
         pc = pass_call(st)
-        if pc is None:
+        if pc is None or pc[3] != ivar:
             fail(st, 'statement in the pass section of assemble()')
-        if pc[2] not in ('items', 'program') or (pc[2] == 'program') != (pc[0] == 'resolve_blobs'):
-            fail(st, 'pass result must be bound to items (program for resolve_blobs)')
+        if pc[0] == 'resolve_blobs':
+            pvar = pc[2]
+        elif pc[2] != ivar:
+            fail(st, 'pass result must be bound to the item list variable')
         order.append((pc[0], pc[1], False))
     if not order or order[-1][0] != 'resolve_blobs':
         fail(fns['assemble'], 'resolve_blobs must be the last pass')
